@@ -156,5 +156,5 @@ pub fn run(tier: &str, seed: u64, dir: &str) {
     }
     // device level: both front-ends with the scripted radio (see adevgen::add_dev_classes)
     crate::adevgen::add_dev_classes("C07", &mut rng, &mut sink, thorough, eval);
-    sink.finish(dir, "twin runs: each history is executed twice on the real Mac, once with and once without the frames marked `*` (frames the REFERENCE view rejects: unparseable bytes, data frames whose MIC verifies under no counter incl. bit-flips and other-session frames, wrong-key JoinAccepts; oversized ones are left unstarred); every unstarred event must produce identical output (uplink bytes as decoded, TxConfig, windows, responses, snapshots) and every starred one `NoUpdate`. Non-trivial = histories containing at least one starred frame.", false, serde_json::json!({}));
+    sink.finish(dir, "twin runs: each history is executed twice on the real Mac, once with and once without the frames marked `*` (frames the REFERENCE view rejects: unparseable bytes, data frames whose MIC verifies under no counter incl. bit-flips and other-session frames, downlinks addressed to another DevAddr whatever their MIC (also under the session's own keys at a fresh counter: classes other-devaddr, rej-other-devaddr), wrong-key JoinAccepts; oversized ones are left unstarred); every unstarred event must produce identical output (uplink bytes as decoded, TxConfig, windows, responses, snapshots) and every starred one `NoUpdate`. Non-trivial = histories containing at least one starred frame.", false, serde_json::json!({}));
 }
